@@ -146,8 +146,10 @@ class LenProof:
                     return False
                 return closure_is_lowercase(self.cx, self.crate, clo)
             if self.has(insens, True):
-                self.external.append(("Ascii", mir.show(v)))
-                return True, "len(v) under bytes(v) == take(map(bytes(s), to_ascii_lowercase), len(v)) [needs Ascii(v)]"
+                # No external fact needed: equality of len(v) bytes means every input byte either equals a non-ASCII
+                # byte of v exactly (to_ascii_lowercase only changes A-Z) or is ASCII where v is ASCII; v is a valid
+                # &str, so the input prefix ends where a character of v ends, i.e. on a boundary of the (valid) input.
+                return True, "len(v) under bytes(v) == take(map(bytes(s), to_ascii_lowercase), len(v)) [byte-wise equal up to ASCII case]"
             return False, "len(%s): no dominating prefix test on this state" % mir.show(v)
         # --- constant 1
         if L == ("const", "usize", 1):
@@ -535,7 +537,7 @@ def check_panic_runtime(cx, chk, crate, label):
 
 
 # generated code: (kind) -> reason, by role of the function
-def check_generated(cx, chk):
+def check_generated(cx, chk, ext_names=("parse_character_literal_insensitive",)):
     n_fns = 0
     n_ins = 0
     for inst in cx.instances():
@@ -561,7 +563,9 @@ def check_generated(cx, chk):
                 if l in ("parse_string_literal_insensitive", "parse_character_literal_insensitive"):
                     n_ins += 1
                     c = b.expr_op(t["args"][1])
-                    if c[0] == "const" and isinstance(c[2], str) and all(ord(ch) < 128 for ch in c[2]) and c[2] == c[2].lower():
+                    need_ascii = l in ext_names
+                    if c[0] == "const" and isinstance(c[2], str) and (not need_ascii or all(ord(ch) < 128 for ch in c[2])) \
+                            and not any("A" <= ch <= "Z" for ch in c[2]):
                         chk.ok("C04.ascii", "%s/%s %r" % (inst.name, rest, c[2]), {"instance": inst.name, "literal": c[2]})
                     else:
                         chk.violation("C04.ascii", "%s/%s insensitive literal %s" % (inst.name, rest, mir.show(c)),
@@ -605,6 +609,7 @@ def run(cx, chk):
     # external facts: Ascii(param) of the insensitive matchers -> discharged on callers
     needs = sorted({short(p) for (p, ex) in ext})
     chk.extra["external_facts"] = [{"fn": short(p), "fact": ex} for (p, ex) in ext]
-    check_generated(cx, chk)
+    ext_names = tuple(sorted({last(p) for (p, ex) in ext if ex[0] == "Ascii"}))
+    check_generated(cx, chk, ext_names)
     from . import templates
-    templates.check_c04_ascii(cx, chk)
+    templates.check_c04_ascii(cx, chk, ext_names)
